@@ -1,5 +1,7 @@
 import EgVerif.Spec.Delivery
 import EgVerif.Proofs.Topic
+import Mathlib.Data.List.Nodup
+import Mathlib.Data.List.Perm.Subperm
 /-! Helper lemmas for C15 (fan-out and session queue). Property theorems are in `Props/C15.lean`. -/
 namespace EgVerif.Delivery
 open EgVerif.Topic
@@ -63,18 +65,95 @@ theorem alSet_fresh {κ β : Type} [DecidableEq κ] (k : κ) (v : β) (l : List 
     have : ¬ a = k := fun e => h.1 e.symm
     simp [alSet, this, ih h.2]
 
-/-- the refinement invariant between the session (`s`) and the abstract state: `n` ids consumed so
-far, `u` the unacknowledged QoS1 messages oldest first. -/
-structure QInv (s : Sess) (n : Nat) (u : List (Id × Msg)) : Prop where
-  pend : s.pending = u
-  next : s.nextID = n % idMod
-  ulim : ∀ e ∈ u, e.1 < n
-  qlim : ∀ i ∈ s.queue, i < n
-  qf : s.queue.filter (fun i => decide (i ∈ u.map Prod.fst)) = u.map Prod.fst
-  nd : (u.map Prod.fst).Nodup
+/-! ### packet-id allocation of the repaired `getPacketFromMsg` -/
 
-theorem qinv_init : QInv Sess.init 0 [] :=
-  ⟨rfl, rfl, by simp, by simp [Sess.init], by simp [Sess.init], by simp⟩
+theorem skipPending_spec (p : List (Id × Msg)) : ∀ (fuel i : Nat), i < idMod →
+    (alGet (skipPending fuel p i) p).isSome = false ∨ ∀ j, j < fuel → ((i + j) % idMod) ∈ p.map Prod.fst := by
+  intro fuel
+  induction fuel with
+  | zero => intro i _; right; intro j hj; omega
+  | succ f ih =>
+    intro i hi
+    simp only [skipPending]
+    by_cases hg : (alGet i p).isSome = true
+    · simp only [hg, if_true]
+      have hlt : (i + 1) % idMod < idMod := Nat.mod_lt _ (by decide)
+      rcases ih ((i + 1) % idMod) hlt with h | h
+      · left; exact h
+      · right
+        intro j hj
+        cases j with
+        | zero =>
+          simp only [Nat.add_zero, Nat.mod_eq_of_lt hi]
+          obtain ⟨v, hv⟩ := Option.isSome_iff_exists.mp hg
+          exact List.mem_map.mpr ⟨(i, v), alGet_mem hv, rfl⟩
+        | succ j' =>
+          have := h j' (by omega)
+          have e : ((i + 1) % idMod + j') % idMod = (i + (j' + 1)) % idMod := by
+            rw [Nat.add_mod, Nat.mod_mod, ← Nat.add_mod]; congr 1; omega
+          rw [e] at this; exact this
+    · simp only [hg, Bool.false_eq_true, if_false]
+      left; simpa using hg
+
+theorem residues_nodup (i : Nat) : ((List.range idMod).map (fun j => (i + j) % idMod)).Nodup := by
+  apply List.Nodup.map_on
+  · intro a ha b hb e
+    have ha' : a < idMod := List.mem_range.mp ha
+    have hb' : b < idMod := List.mem_range.mp hb
+    unfold idMod at *
+    omega
+  · exact List.nodup_range
+
+/-- **The repaired allocation never hands out the id of a pending message** while fewer than 65 536 messages are
+pending (pigeonhole over the 65 536 residues). -/
+theorem freeId_fresh (p : List (Id × Msg)) (next : Nat) (hn : next < idMod) (hlen : p.length < idMod) :
+    freeId p next ∉ p.map Prod.fst := by
+  rcases skipPending_spec p idMod next hn with h | h
+  · intro hm
+    have : alGet (freeId p next) p ≠ none := by
+      intro e; exact (alGet_none_iff.mp e) hm
+    unfold freeId at this
+    cases hg : alGet (skipPending idMod p next) p with
+    | none => exact this hg
+    | some v => rw [hg] at h; simp at h
+  · exfalso
+    have hsub : (List.range idMod).map (fun j => (next + j) % idMod) ⊆ p.map Prod.fst := by
+      intro x hx
+      obtain ⟨j, hj, rfl⟩ := List.mem_map.mp hx
+      exact h j (List.mem_range.mp hj)
+    have hle := ((residues_nodup next).subperm hsub).length_le
+    simp only [List.length_map, List.length_range] at hle
+    omega
+
+theorem freeId_lt (p : List (Id × Msg)) : ∀ (fuel next : Nat), next < idMod → skipPending fuel p next < idMod := by
+  intro fuel
+  induction fuel with
+  | zero => intro n h; exact h
+  | succ f ih =>
+    intro n h
+    simp only [skipPending]
+    split
+    · exact ih _ (Nat.mod_lt _ (by decide))
+    · exact h
+
+/-! ### the refinement invariants -/
+
+/-- what holds with the windowed hypothesis alone ("fewer than 65 536 messages pending"): `pending` IS the list of
+unacknowledged messages `u`, their ids are pairwise distinct, and every one of them is still in the queue -/
+structure QI (s : Sess) (u : List (Id × Msg)) : Prop where
+  pend : s.pending = u
+  nd : (u.map Prod.fst).Nodup
+  qsub : ∀ i ∈ u.map Prod.fst, i ∈ s.queue
+  lt : s.nextID < idMod
+
+/-- …and, when no re-issued id is still a stale entry of the queue, the queue lists them in send order -/
+structure QO (s : Sess) (u : List (Id × Msg)) : Prop extends QI s u where
+  qf : s.queue.filter (fun i => decide (i ∈ u.map Prod.fst)) = u.map Prod.fst
+
+theorem qo_init : QO Sess.init [] :=
+  ⟨⟨rfl, by simp, by simp, by simp [Sess.init, idMod]⟩, by simp [Sess.init]⟩
+
+theorem qi_init : QI Sess.init [] := qo_init.toQI
 
 theorem firstPending_spec (q : List Id) (p : List (Id × Msg)) :
     match firstPending q p with
@@ -113,15 +192,64 @@ theorem filter_none_of_alGet_none (pre : List Id) (u : List (Id × Msg))
   have := alGet_none_iff.mp (h j hj)
   simpa using this
 
+
+/-- a resend tick writes one unacknowledged message with its own id and content (if online and there is one),
+nothing else, and keeps the invariant — no hypothesis about stale queue entries -/
+theorem doResend_qi {s : Sess} {u : List (Id × Msg)} (inv : QI s u) (online : Bool) :
+    QI (doResend online s).1 u ∧
+    (∀ p ∈ (doResend online s).2, ∃ e ∈ u, p = pkt e.1 e.2) ∧
+    (u ≠ [] → online = true → ∃ e ∈ u, (doResend online s).2 = [pkt e.1 e.2]) ∧
+    (u = [] → (doResend online s).2 = []) := by
+  unfold doResend
+  cases u with
+  | nil =>
+    have : s.pending.isEmpty = true := by rw [inv.pend]; rfl
+    simp only [this, if_true]
+    exact ⟨⟨inv.pend, inv.nd, by simp, inv.lt⟩, by simp, by simp, by simp⟩
+  | cons e0 u' =>
+    have hne : s.pending.isEmpty = false := by rw [inv.pend]; rfl
+    simp only [hne, Bool.false_eq_true, if_false]
+    have fp := firstPending_spec s.queue s.pending
+    cases hf : firstPending s.queue s.pending with
+    | none =>
+      exfalso
+      rw [hf] at fp
+      have hk : e0.1 ∈ (e0 :: u').map Prod.fst := by simp
+      have hq := inv.qsub e0.1 hk
+      have := fp e0.1 hq
+      rw [inv.pend] at this
+      exact (alGet_none_iff.mp this) hk
+    | some x =>
+      obtain ⟨q', i, m⟩ := x
+      rw [hf] at fp
+      obtain ⟨pre, tl, e1, e2, h3, h4⟩ := fp
+      rw [inv.pend] at h3 h4
+      have hmem : (i, m) ∈ e0 :: u' := alGet_mem h4
+      dsimp only
+      refine ⟨⟨inv.pend, inv.nd, ?_, inv.lt⟩, ?_, ?_, by simp⟩
+      · intro j hj
+        have hjq := inv.qsub j hj
+        rw [e1] at hjq
+        rcases List.mem_append.mp hjq with h | h
+        · exfalso
+          exact (alGet_none_iff.mp (h3 j h)) hj
+        · exact h
+      · intro p hp
+        cases online <;> simp at hp
+        exact ⟨(i, m), hmem, hp⟩
+      · intro _ ho
+        subst ho
+        exact ⟨(i, m), hmem, rfl⟩
+
 /-- a resend tick writes exactly the oldest unacknowledged message (if online) and keeps the invariant -/
-theorem doResend_spec {s : Sess} {n : Nat} {u : List (Id × Msg)} (inv : QInv s n u) (online : Bool) :
-    (doResend online s).2 = specTick online u ∧ QInv (doResend online s).1 n u := by
+theorem doResend_spec {s : Sess} {u : List (Id × Msg)} (inv : QO s u) (online : Bool) :
+    (doResend online s).2 = specTick online u ∧ QO (doResend online s).1 u := by
   unfold doResend
   cases u with
   | nil =>
     have : s.pending.isEmpty = true := by rw [inv.pend]; rfl
     simp only [this, if_true, specTick, true_and]
-    exact ⟨inv.pend, inv.next, by simp, by simp, by simp, by simp⟩
+    exact ⟨⟨inv.pend, inv.nd, by simp, inv.lt⟩, by simp⟩
   | cons e u' =>
     obtain ⟨i0, m0⟩ := e
     have hne : s.pending.isEmpty = false := by rw [inv.pend]; rfl
@@ -154,153 +282,183 @@ theorem doResend_spec {s : Sess} {n : Nat} {u : List (Id × Msg)} (inv : QInv s 
         simp [alGet] at h4; exact h4.symm
       subst hm
       simp only [specTick, true_and]
-      refine ⟨rfl, inv.next, inv.ulim, ?_, ?_, inv.nd⟩
+      refine ⟨⟨rfl, inv.nd, ?_, inv.lt⟩, ?_⟩
       · intro j hj
-        exact inv.qlim j (by rw [e1]; exact List.mem_append_right _ hj)
+        have hjq := inv.qsub j hj
+        rw [e1] at hjq
+        rcases List.mem_append.mp hjq with h | h
+        · exfalso; exact (alGet_none_iff.mp (h3 j h)) hj
+        · exact h
       · show q'.filter _ = _
         rw [e2, List.filter_cons]
         simp only [hi, decide_true, if_true]
         exact hq
 
-theorem publish_spec {s : Sess} {n : Nat} {u : List (Id × Msg)} (inv : QInv s n u) (online full : Bool)
-    (m : Msg) (hn : n < idMod) :
-    QInv (publish online full m s).1 (unackedStep (n, u) (.publish online full m)).1
-      (unackedStep (n, u) (.publish online full m)).2 := by
-  have hid : s.nextID = n := by rw [inv.next, Nat.mod_eq_of_lt hn]
-  cases online with
-  | false => simpa [publish, unackedStep] using inv
-  | true =>
-    have hnext : (s.nextID + 1) % idMod = (n + 1) % idMod := by rw [hid]
-    simp only [publish, unackedStep, Bool.not_true, Bool.false_eq_true, if_false, if_true,
-      Nat.mod_eq_of_lt hn]
-    have hlim : ∀ e ∈ u, e.1 < n + 1 := fun e he => Nat.lt_succ_of_lt (inv.ulim e he)
-    have hqlim : ∀ i ∈ s.queue, i < n + 1 := fun i hi => Nat.lt_succ_of_lt (inv.qlim i hi)
-    by_cases h0 : m.qos = 0
-    · have h1 : ¬ m.qos = 1 := by omega
-      simp only [h0, if_true]
-      simp only [show ¬ (0 = 1) by omega, if_false]
-      exact ⟨inv.pend, hnext, hlim, hqlim, inv.qf, inv.nd⟩
-    · by_cases h1 : m.qos = 1
-      · simp only [h1, show ¬ ((1:Nat) = 0) by decide, if_false, if_true, pkt, hid]
-        have hfresh : n ∉ u.map Prod.fst := by
-          intro hm
-          obtain ⟨e, he, e2⟩ := List.mem_map.mp hm
-          have := inv.ulim e he
-          exact absurd (e2 ▸ this) (Nat.lt_irrefl _)
-        refine ⟨?_, rfl, ?_, ?_, ?_, ?_⟩
-        · show alSet n m s.pending = _
-          rw [inv.pend]; exact alSet_fresh n m u hfresh
-        · intro e he
-          rcases List.mem_append.mp he with h | h
-          · exact hlim e h
-          · simp at h; rw [h]; exact Nat.lt_succ_self n
-        · intro i hi
-          rcases List.mem_append.mp hi with h | h
-          · exact hqlim i h
-          · simp at h; rw [h]; exact Nat.lt_succ_self n
-        · show (s.queue ++ [n]).filter _ = _
-          rw [List.filter_append, List.map_append]
-          have e1 : s.queue.filter (fun i => decide (i ∈ u.map Prod.fst ++ List.map Prod.fst [(n, m)])) =
-              s.queue.filter (fun i => decide (i ∈ u.map Prod.fst)) := by
-            apply List.filter_congr
-            intro i hi
-            have : i ≠ n := Nat.ne_of_lt (inv.qlim i hi)
-            simp [this]
-          rw [e1, inv.qf]
-          simp
-        · rw [List.map_append, List.nodup_append]
-          refine ⟨inv.nd, by simp, ?_⟩
-          intro a ha b hb
-          simp at hb; subst hb
-          intro e; subst e; exact hfresh ha
-      · simp only [h0, h1, if_false]
-        exact ⟨inv.pend, hnext, hlim, hqlim, inv.qf, inv.nd⟩
+/-- bookkeeping step of an online publish, on the model's own output -/
+theorem obsStep_publish (u : List (Id × Msg)) (full : Bool) (m : Msg) (s : Sess) :
+    obsStep u (.publish true full m) (publish true full m s).2 =
+      if m.qos = 1 then u ++ [(freeId s.pending s.nextID, m)] else u := by
+  by_cases h0 : m.qos = 0
+  · have : ¬ m.qos = 1 := by omega
+    cases full <;> simp [publish, h0, obsStep, this]
+  · by_cases h1 : m.qos = 1
+    · simp [publish, h1, obsStep, pkt]
+    · simp [publish, h0, h1, obsStep]
 
-theorem puback_spec {s : Sess} {n : Nat} {u : List (Id × Msg)} (inv : QInv s n u) (i : Id) :
-    QInv (puback i s) n (u.filter (fun e => decide (e.1 ≠ i))) := by
+theorem publish_qi {s : Sess} {u : List (Id × Msg)} (inv : QI s u) (full : Bool) (m : Msg)
+    (hlen : s.pending.length < idMod) :
+    QI (publish true full m s).1 (obsStep u (.publish true full m) (publish true full m s).2) := by
+  rw [obsStep_publish]
+  obtain ⟨pend, q, n⟩ := s
+  have hp : pend = u := inv.pend
+  subst hp
+  have hfresh : freeId pend n ∉ pend.map Prod.fst := freeId_fresh pend n inv.lt hlen
+  have hlt : (freeId pend n + 1) % idMod < idMod := Nat.mod_lt _ (by decide)
+  by_cases h0 : m.qos = 0
+  · have h1 : ¬ m.qos = 1 := by omega
+    simp only [publish, h0, h1, if_false, if_true, Bool.not_true, Bool.false_eq_true]
+    exact ⟨rfl, inv.nd, inv.qsub, hlt⟩
+  · by_cases h1 : m.qos = 1
+    · simp only [publish, h1, if_true, Bool.not_true, Bool.false_eq_true, if_false,
+        show ¬ ((1 : Nat) = 0) by decide, pkt]
+      refine ⟨?_, ?_, ?_, hlt⟩
+      · exact alSet_fresh _ m pend hfresh
+      · rw [List.map_append, List.nodup_append]
+        refine ⟨inv.nd, by simp, ?_⟩
+        intro a ha b hb
+        simp at hb; subst hb
+        intro e; subst e; exact hfresh ha
+      · intro i hi
+        rw [List.map_append, List.mem_append] at hi
+        rcases hi with h | h
+        · exact List.mem_append_left _ (inv.qsub i h)
+        · simp at h; subst h; simp
+    · simp only [publish, h0, h1, if_false, Bool.not_true, Bool.false_eq_true]
+      exact ⟨rfl, inv.nd, inv.qsub, hlt⟩
+
+theorem publish_qo {s : Sess} {u : List (Id × Msg)} (inv : QO s u) (full : Bool) (m : Msg)
+    (hlen : s.pending.length < idMod) (hstale : m.qos = 1 → freeId s.pending s.nextID ∉ s.queue) :
+    QO (publish true full m s).1 (obsStep u (.publish true full m) (publish true full m s).2) := by
+  have qi := publish_qi inv.toQI full m hlen
+  refine ⟨qi, ?_⟩
+  rw [obsStep_publish]
+  by_cases h1 : m.qos = 1
+  · have hs := hstale h1
+    simp only [publish, h1, if_true, Bool.not_true, Bool.false_eq_true, if_false,
+      show ¬ ((1 : Nat) = 0) by decide, pkt]
+    show (s.queue ++ [freeId s.pending s.nextID]).filter _ = _
+    rw [List.filter_append, List.map_append]
+    have e1 : s.queue.filter (fun i => decide (i ∈ u.map Prod.fst ++ List.map Prod.fst [(freeId s.pending s.nextID, m)])) =
+        s.queue.filter (fun i => decide (i ∈ u.map Prod.fst)) := by
+      apply List.filter_congr
+      intro i hi
+      have : i ≠ freeId s.pending s.nextID := fun e => hs (e ▸ hi)
+      simp [this]
+    rw [e1, inv.qf]
+    simp
+  · by_cases h0 : m.qos = 0
+    · simp only [publish, h0, h1, if_false, if_true, Bool.not_true, Bool.false_eq_true]
+      exact inv.qf
+    · simp only [publish, h0, h1, if_false, Bool.not_true, Bool.false_eq_true]
+      exact inv.qf
+
+theorem puback_qi {s : Sess} {u : List (Id × Msg)} (inv : QI s u) (i : Id) :
+    QI (puback i s) (u.filter (fun e => decide (e.1 ≠ i))) := by
+  refine ⟨?_, ?_, ?_, inv.lt⟩
+  · show alErase i s.pending = _
+    rw [inv.pend]; rfl
+  · exact List.Nodup.sublist (List.Sublist.map _ List.filter_sublist) inv.nd
+  · intro j hj
+    obtain ⟨e, he, rfl⟩ := List.mem_map.mp hj
+    exact inv.qsub e.1 (List.mem_map.mpr ⟨e, (List.mem_filter.mp he).1, rfl⟩)
+
+theorem puback_spec {s : Sess} {u : List (Id × Msg)} (inv : QO s u) (i : Id) :
+    QO (puback i s) (u.filter (fun e => decide (e.1 ≠ i))) := by
   have hmem : ∀ j, j ∈ (u.filter (fun e => decide (e.1 ≠ i))).map Prod.fst ↔ j ∈ u.map Prod.fst ∧ j ≠ i := by
     intro j
     simp only [List.mem_map, List.mem_filter, decide_eq_true_eq]
     constructor
     · rintro ⟨e, ⟨he, hne⟩, rfl⟩; exact ⟨⟨e, he, rfl⟩, hne⟩
     · rintro ⟨⟨e, he, rfl⟩, hne⟩; exact ⟨e, ⟨he, hne⟩, rfl⟩
-  refine ⟨?_, inv.next, ?_, inv.qlim, ?_, ?_⟩
-  · show alErase i s.pending = _
-    rw [inv.pend]; rfl
-  · intro e he; exact inv.ulim e (List.mem_filter.mp he).1
-  · show s.queue.filter _ = _
-    have e1 : s.queue.filter (fun j => decide (j ∈ (u.filter (fun e => decide (e.1 ≠ i))).map Prod.fst)) =
-        (s.queue.filter (fun j => decide (j ∈ u.map Prod.fst))).filter (fun j => decide (j ≠ i)) := by
-      rw [List.filter_filter]
-      apply List.filter_congr
-      intro j _
-      rw [Bool.eq_iff_iff]
-      simp only [decide_eq_true_eq, Bool.and_eq_true, hmem]
-      exact And.comm
-    rw [e1, inv.qf]
-    generalize u = w
-    induction w with
-    | nil => rfl
-    | cons e r ih =>
-      by_cases h : e.1 = i
-      · simp only [List.map_cons, List.filter_cons, h, ne_eq, not_true_eq_false, decide_false,
-          Bool.false_eq_true, if_false]
-        exact ih
-      · simp only [List.map_cons, List.filter_cons, h, ne_eq, not_false_eq_true, decide_true, if_true]
-        rw [show (List.filter (fun j => decide (j ≠ i)) (List.map Prod.fst r)) = _ from ih]
-  · exact List.Nodup.sublist (List.Sublist.map _ List.filter_sublist) inv.nd
-
-/-- number of packet ids consumed by a trace starting from `n` -/
-def consumed (n : Nat) : List Ev → Nat
-  | [] => n
-  | .publish true _ _ :: r => consumed (n + 1) r
-  | _ :: r => consumed n r
-
-theorem consumed_mono (tr : List Ev) : ∀ n, n ≤ consumed n tr := by
-  induction tr with
-  | nil => intro n; exact Nat.le_refl _
+  refine ⟨puback_qi inv.toQI i, ?_⟩
+  show s.queue.filter _ = _
+  have e1 : s.queue.filter (fun j => decide (j ∈ (u.filter (fun e => decide (e.1 ≠ i))).map Prod.fst)) =
+      (s.queue.filter (fun j => decide (j ∈ u.map Prod.fst))).filter (fun j => decide (j ≠ i)) := by
+    rw [List.filter_filter]
+    apply List.filter_congr
+    intro j _
+    rw [Bool.eq_iff_iff]
+    simp only [decide_eq_true_eq, Bool.and_eq_true, hmem]
+    exact And.comm
+  rw [e1, inv.qf]
+  generalize u = w
+  induction w with
+  | nil => rfl
   | cons e r ih =>
-    intro n
+    by_cases h : e.1 = i
+    · simp only [List.map_cons, List.filter_cons, h, ne_eq, not_true_eq_false, decide_false,
+        Bool.false_eq_true, if_false]
+      exact ih
+    · simp only [List.map_cons, List.filter_cons, h, ne_eq, not_false_eq_true, decide_true, if_true]
+      rw [show (List.filter (fun j => decide (j ≠ i)) (List.map Prod.fst r)) = _ from ih]
+
+/-! ### hypotheses along a run -/
+
+/-- **windowed hypothesis**: at every online publish fewer than 65 536 messages are pending -/
+def PendBound (s : Sess) : List Ev → Prop
+  | [] => True
+  | e :: r =>
+    (match e with
+     | .publish true _ _ => s.pending.length < idMod
+     | _ => True) ∧ PendBound (step s e).1 r
+
+/-- the id handed to a QoS1 message is not a stale entry of `pendingQueue` (an id acknowledged earlier whose queue
+entry has not been dropped by a tick yet and that comes round again after 65 536 publishes) — needed only for
+the ORDER of retransmission -/
+def NoStaleReuse (s : Sess) : List Ev → Prop
+  | [] => True
+  | e :: r =>
+    (match e with
+     | .publish true _ m => m.qos = 1 → freeId s.pending s.nextID ∉ s.queue
+     | _ => True) ∧ NoStaleReuse (step s e).1 r
+
+theorem qi_run (tr : List Ev) : ∀ {s : Sess} {u : List (Id × Msg)}, QI s u → PendBound s tr →
+    QI (run s tr) (uRun s u tr) := by
+  induction tr with
+  | nil => intro s u inv _; exact inv
+  | cons e r ih =>
+    intro s u inv hb
+    simp only [run, uRun]
+    obtain ⟨hb1, hb2⟩ := hb
     cases e with
     | publish online full m =>
       cases online with
-      | true => exact Nat.le_trans (Nat.le_succ n) (ih (n + 1))
-      | false => exact ih n
-    | puback i => exact ih n
-    | tick o => exact ih n
+      | false =>
+        have e1 : step s (.publish false full m) = (s, []) := by simp [step, publish]
+        rw [e1] at hb2 ⊢
+        exact ih (by simpa [obsStep] using inv) hb2
+      | true => exact ih (publish_qi inv full m hb1) hb2
+    | puback i => exact ih (puback_qi inv i) hb2
+    | tick online => exact ih (doResend_qi inv online).1 hb2
 
-/-- the whole trace: while fewer than 65 536 ids have been consumed the session refines the abstract
-state, and every tick along the way wrote exactly `specTick` of the then-current unacked list. -/
-theorem qinv_run (tr : List Ev) : ∀ {s : Sess} {n : Nat} {u : List (Id × Msg)}, QInv s n u →
-    consumed n tr ≤ idMod →
-    QInv (run s tr) (unackedFrom (n, u) tr).1 (unackedFrom (n, u) tr).2 := by
+theorem qo_run (tr : List Ev) : ∀ {s : Sess} {u : List (Id × Msg)}, QO s u → PendBound s tr → NoStaleReuse s tr →
+    QO (run s tr) (uRun s u tr) := by
   induction tr with
-  | nil => intro s n u inv _; simpa [run, unackedFrom] using inv
+  | nil => intro s u inv _ _; exact inv
   | cons e r ih =>
-    intro s n u inv hc
-    simp only [run, unackedFrom]
+    intro s u inv hb hs
+    simp only [run, uRun]
+    obtain ⟨hb1, hb2⟩ := hb
+    obtain ⟨hs1, hs2⟩ := hs
     cases e with
     | publish online full m =>
-      have hn : n < idMod ∨ online = false := by
-        cases online with
-        | false => exact Or.inr rfl
-        | true =>
-          left
-          have := consumed_mono r (n + 1)
-          simp only [consumed] at hc
-          omega
-      rcases hn with hn | hoff
-      · have step := publish_spec inv online full m hn
-        apply ih step
-        cases online with
-        | true => simpa [consumed, unackedStep] using hc
-        | false => simpa [consumed, unackedStep] using hc
-      · subst hoff
-        have : QInv (publish false full m s).1 n u := by simpa [publish] using inv
-        simpa [step, unackedStep, consumed] using ih this (by simpa [consumed] using hc)
-    | puback i =>
-      exact ih (puback_spec inv i) (by simpa [consumed] using hc)
-    | tick online =>
-      exact ih (doResend_spec inv online).2 (by simpa [consumed] using hc)
+      cases online with
+      | false =>
+        have e1 : step s (.publish false full m) = (s, []) := by simp [step, publish]
+        rw [e1] at hb2 hs2 ⊢
+        exact ih (by simpa [obsStep] using inv) hb2 hs2
+      | true => exact ih (publish_qo inv full m hb1 hs1) hb2 hs2
+    | puback i => exact ih (puback_spec inv i) hb2 hs2
+    | tick online => exact ih (doResend_spec inv online).2 hb2 hs2
 
 end EgVerif.SessionQueue
